@@ -8,6 +8,8 @@ OVERLAY = {
     "core/record/zz_c08_export_verif_test.go": "harness/overlay/record/c08_export_verif_test.go",
     "core/record/zz_c08_verif_test.go": "harness/overlay/record/c08_verif_test.go",
     "core/record/zz_c08_rsa8192_verif_test.go": "harness/overlay/record/c08_rsa8192_verif_test.go",
+    "core/record/zz_c08_round2_verif_test.go": "harness/overlay/record/c08_round2_verif_test.go",
+    "core/record/zz_c08_round2b_verif_test.go": "harness/overlay/record/c08_round2b_verif_test.go",
 }
 PKG = "core/record"
 
@@ -39,7 +41,9 @@ def replay_harness(ctx, casefile, toks):
 KIND = {1: "varint-encode", 2: "varint-decode", 3: "makeUnsigned", 4: "makeUnsigned-colliding-concatenations",
         5: "key/peer-ID forms", 6: "envelope consumption", 7: "signature verification",
         8: "marshalled public key edit", 9: "peer.Decode", 10: "IDFromBytes/ExtractPublicKey",
-        11: "non-canonical serialization of a key", 12: "MatchesPublicKey", 13: "RSA key size boundary"}
+        11: "non-canonical serialization of a key", 12: "MatchesPublicKey", 13: "RSA key size boundary",
+        14: "ExtractPublicKey under AdvancedEnableInlining", 15: "seal, mutate the producer's record, consume the same envelope",
+        16: "/p2p address form (IDFromP2PAddr, SplitAddr, AddrInfoFromP2pAddr)", 17: "hand-sealed relay voucher"}
 
 
 class Rd:
@@ -104,6 +108,28 @@ def describe(t):
             d["remarshalled_hex"] = r.b().hex()[:120]; d["id_of_parsed_hex"] = r.b().hex()
         elif k == 12:
             r.b(); r.b(); d["id_of_key_hex"] = r.b().hex(); d["probe_id_hex"] = r.b().hex(); d["matches"] = r.z()
+        elif k == 14:
+            d["inlining_when_id_was_made"], d["inlining_when_extracting"] = r.z(), r.z()
+            d["marshalled_hex"] = r.b().hex()[:120]; r.b(); d["id_hex"] = r.b().hex()
+            d["extract(0=key,1=ErrNoPublicKey,2=error,3=other key)"] = r.z()
+        elif k == 15:
+            d["api"] = {0: "Envelope.Record()", 1: "Envelope.TypedRecord(fresh)", 2: "pstoremem.ConsumePeerRecord", 3: "pstoreds.ConsumePeerRecord"}.get(r.z())
+            d["peer_record"] = r.z(); d["signer_id_hex"] = r.b().hex(); d["sealed_payload_hex"] = r.b().hex()[:160]
+            d["sealed_peer_id_hex"] = r.b().hex(); d["sealed_seq+addrs_hex"] = r.b().hex()[:120]
+            d["handed_out"] = {"ok": r.z(), "peer_id_hex": r.b().hex(), "seq+addrs_hex": r.b().hex()[:120]}
+            d["peerstore"] = {"result(1=accepted)": r.z(), "stored_under_hex": r.b().hex(), "stored_addrs_hex": r.b().hex()[:120], "sealed_addrs_hex": r.b().hex()[:120]}
+        elif k == 16:
+            comps = []
+            for _ in range(r.z()):
+                comps.append({"protocol_code": r.z(), "value_hex": r.b().hex()[:80]})
+            d["components"] = comps
+            d["IDFromP2PAddr"] = {"ok": r.z(), "id_hex": r.b().hex()}
+            d["SplitAddr"] = {"ok": r.z(), "id_hex": r.b().hex()}
+            d["AddrInfoFromP2pAddr"] = {"ok": r.z(), "id_hex": r.b().hex()}
+        elif k == 17:
+            d["api"] = {0: "ConsumeEnvelope", 1: "ConsumeTypedEnvelope"}.get(r.z()); d["destination_reused"] = r.z()
+            d["payload_hex"] = r.b().hex(); d["result(1=accepted)"] = r.z()
+            d["voucher"] = {"relay_hex": r.b().hex(), "peer_hex": r.b().hex(), "expiration": r.z() * 2 ** 32 + r.z()}
         elif k == 13:
             d["modulus_bits"], d["private"], d["class(3=accepted)"], d["roundtrip"] = t[1:5]
         elif k in (9,):
@@ -118,7 +144,7 @@ def describe(t):
 def nontrivial(line):
     # non-trivial: an envelope / signature / key edit case, or a colliding-concatenation pair
     k = line.split(b" ", 1)[0]
-    return k in (b"4", b"6", b"7", b"8", b"11", b"12", b"13")
+    return k in (b"4", b"6", b"7", b"8", b"11", b"12", b"13", b"14", b"15", b"16", b"17")
 
 
 def key(tag, toks, d):
@@ -134,6 +160,14 @@ def key(tag, toks, d):
         return "C08:%s:clause%s:keytype=%s" % (KIND[k], clause, toks[1])
     if k == 12:
         return "C08:%s:clause%s:matches=%s" % (KIND[k], clause, toks[-1])
+    if k == 14:
+        return "C08:%s:clause%s:made=%s:extracting=%s:extract=%s" % (KIND[k], clause, toks[1], toks[2], toks[-1])
+    if k == 15:
+        return "C08:%s:clause%s:api=%s:peer_record=%s" % (KIND[k], clause, toks[1], toks[2])
+    if k == 16:
+        return "C08:%s:clause%s:protocols=%s" % (KIND[k], clause, "/".join(str(c["protocol_code"]) for c in describe(toks).get("components", [])))
+    if k == 17:
+        return "C08:%s:clause%s:api=%s:reused=%s:payload=%s" % (KIND[k], clause, toks[1], toks[2], describe(toks).get("payload_hex", "")[:16])
     if k == 13:
         return "C08:%s:clause%s:bits=%s:private=%s:class=%s:roundtrip=%s" % ((KIND[k], clause) + tuple(toks[1:5]))
     return "C08:%s:clause%s:%s" % (KIND.get(k, k), clause, " ".join(map(str, toks[1:40])))
@@ -154,6 +188,14 @@ def what(tag, toks, d):
         (11, 111): "a key equal to the original (parsed from another serialization) has a DIFFERENT peer ID",
         (11, 112): "a key equal to the original (parsed from another serialization) marshals to different bytes",
         (12, 121): "MatchesPublicKey disagrees with 'the ID is IDFromPublicKey(pk)' (an alias ID matched, or the real ID did not)",
+        (14, 141): "ExtractPublicKey returned a different key",
+        (14, 142): "the key is not recoverable from an ID that embeds it (identity multihash)",
+        (15, 151): "the envelope handed out a record other than the decoding of the payload it was sealed with",
+        (15, 152): "a peerstore accepted, from a locally sealed envelope, a record that is not the sealed one / not under the signer's ID",
+        (16, 161): "IDFromP2PAddr, SplitAddr and AddrInfoFromP2pAddr disagree on whom the address names",
+        (16, 162): "the address does not read back as its last /p2p component (or names somebody although it does not end in /p2p)",
+        (17, 171): "an accepted relay voucher holds fields other than those of the sealed payload",
+        (17, 172): "a payload that is not a voucher (relay or peer missing / not a peer ID) was accepted as one",
         (13, 131): "an RSA key of a size that can be generated does not unmarshal / round-trip",
     }.get((k, clause))
     if msg is None and k == 5:
@@ -188,6 +230,6 @@ if __name__ == "__main__":
              "non-minimal varints/enum truncation), foreign key and foreign signature pairings, re-sealing by a foreign key, wrong domains. "
              "Byte-level functions (uvarint, makeUnsigned, MarshalPublicKey, IDFromPublicKey, base58/CID text, multihash, protobuf scan of "
              "every mutated envelope/key) are compared byte for byte with the Coq model (conform_case); every attempt is judged by the "
-             "property monitor (monitor_case). Also: every accepted non-canonical serialization of each key (unknown fields, order, redundant varints, repeated fields) stand-alone and inside envelopes must give an equal key with the same marshalled form and the same ID; alias IDs (identity multihash over such serializations, inline form of hashed keys, hashed form of inlined keys) as MatchesPublicKey probes and as PeerRecord.PeerID through both peerstores; RSA moduli of 1024..16384 bits around MinRsaKeyBits/maxRsaKeyBits plus one embedded real 8192-bit key pair (private/public round trip, all ID forms, a signature). Non-trivial = envelope, signature, key-edit, alias, MatchesPublicKey, RSA-size and colliding-concatenation cases.",
+             "property monitor (monitor_case). Also: every accepted non-canonical serialization of each key (unknown fields, order, redundant varints, repeated fields) stand-alone and inside envelopes must give an equal key with the same marshalled form and the same ID; alias IDs (identity multihash over such serializations, inline form of hashed keys, hashed form of inlined keys) as MatchesPublicKey probes and as PeerRecord.PeerID through both peerstores; RSA moduli of 1024..16384 bits around MinRsaKeyBits/maxRsaKeyBits plus one embedded real 8192-bit key pair (private/public round trip, all ID forms, a signature). Round 2: sig(x) tried on sha256/sha512/sha512-256/sha1/sha384(x) and sig(H(x)) on x for every key type, messages of exactly 0..65 bytes; IDs made and keys extracted under both values of AdvancedEnableInlining (binary, base58, CID forms); Seal, then the producer edits/reuses the record, then Record()/TypedRecord/both peerstores on the same *Envelope; multiaddrs from component lists incl. relay/circuit forms (IDFromP2PAddr vs SplitAddr vs AddrInfoFromP2pAddr vs the model); relay voucher payloads written by hand (fields removed/empty/repeated/reordered), sealed and consumed into fresh and reused destinations. Non-trivial = envelope, signature, key-edit, alias, MatchesPublicKey, RSA-size and colliding-concatenation cases.",
         describe=describe, key=key, what=what, crosscheck=60,
     ))
